@@ -1,7 +1,7 @@
 p='/repo/libxcp/src/operations.rs'
 s=open(p).read()
 L=s.split("\n")
-start=next(i for i,l in enumerate(L) if l=="    for source in sources {")
+start=[i for i,l in enumerate(L) if l=="    for source in sources {"][-1]
 end=next(i for i,l in enumerate(L) if 'debug!("Walk-worker finished' in l)-1
 assert L[end]=="    }", L[end]
 body=L[start+1:end]
@@ -10,7 +10,7 @@ new_loop=["    // Carry on with the remaining sources after one of them fails (a
 "    // cp does); the outcome is reported once every source was tried.",
 "    let mut result = Ok(());",
 "    for source in sources {",
-"        result = walk_source(source, dest, config, &work_tx, &stats, &mut produced, &mut written, &mut replaced, &mut backup_named, &mut through_links, &mut spelled, &mut read);",
+"        result = walk_source(source, dest, config, &work_tx, &stats, &mut produced, &mut written, &mut replaced, &mut backup_named, &mut through_links, &mut spelled, &mut read, &all_sources, &mut all_known);",
 "        if let Err(e) = &result {",
 "            error!(\"{}\", e);",
 "        }",
@@ -29,6 +29,8 @@ func=["",
 "    through_links: &mut HashSet<PathBuf>,",
 "    spelled: &mut HashSet<PathBuf>,",
 "    read: &mut HashMap<(u64, u64), PathBuf>,",
+"    all_sources: &[PathBuf],",
+"    all_known: &mut bool,",
 ") -> Result<()> {"]+ded+["    Ok(())","}"]
 rest=L[end+1:]
 ri=next(i for i,l in enumerate(rest) if l=="    Ok(())")
@@ -36,3 +38,8 @@ rest[ri]="    result"
 fe=next(i for i,l in enumerate(rest) if i>ri and l=="}")
 out=L[:start]+new_loop+rest[:fe+1]+func+rest[fe+1:]
 open(p,"w").write("\n".join(out))
+# (inside walk_source the walker's state arrives by reference)
+s=open(p).read()
+s=s.replace("if aliased && !all_known {","if aliased && !*all_known {")
+s=s.replace("known_sources(&all_sources, config, &mut read);\n                                all_known = true;","known_sources(all_sources, config, read);\n                                *all_known = true;")
+open(p,"w").write(s)
